@@ -70,6 +70,8 @@ def check(run, tier):
     )
     q = tier == "quick"
     run.mc("MC_Transform", "MC_Transform" if q else "MC_Transform_thorough", timeout=3000)
+    # unbounded: rotation inverse / inside / four-fold / injective and shift inverse / fits-iff-inside for every shape (TLAPS)
+    run.tlaps("TransformLemmas")
     r = rng("C15")
     run_calls(run, cases(tier, r), batch=1500, nontrivial=lambda rec: rec["wells"]["k"] != "s")
 
